@@ -84,7 +84,14 @@ def generate(rng, tier):
                 text = gen.mutate_tokens(r, text)
             one_text(lines, checks, 0, text)
         n += 1
-        yield Scn('rand%d' % n, lines, {'class': 'random/flags=%d' % flags, 'checks': checks})
+        meta = {'class': 'random/flags=%d' % flags, 'checks': checks}
+        if n % 3 == 0:
+            # "read back through the getters": every declared option by name, by index, beyond the end, as a wrong kind
+            lines.append('dump 0')
+            meta['getdump'] = len(lines) - 1
+            meta['getschema'] = schema
+            lines += gen.getter_sweep(schema, maxidx=2)
+        yield Scn('rand%d' % n, lines, meta)
 
 
 def exh_scn(sid, schema, flags, texts):
@@ -139,6 +146,9 @@ def oracle(scn, il, ml):
             elif obs(ib[di])[5:] != obs('dump ' + want)[5:]:
                 out.append(('values:' + shape(text), '%s: after %s the tree is\n  %s\nthe meaning is\n  %s' % (
                     scn.id, show(text), obs(ib[di])[5:][:1500], want[:1500])))
+    gd = scn.meta.get('getdump')
+    if not out and gd is not None and gd < len(ib) and ib[gd].startswith('dump ('):
+        out += gen.check_getters(scn, ib, gen.dump_tree(ib[gd]), scn.meta['getschema'])
     return out
 
 
